@@ -9,7 +9,7 @@ EXPLANATION = ("proved: SatCacheMixin._add / unsat_core keep the cached core a t
                "Z3-term table at the constraint being added whatever it held before; bounded: tracked plain/composite/hybrid solvers driven to unsat in every add order")
 TECHNIQUE = "mixin-in-isolation proof of the core invariant + bounded run-time contracts"
 RULE = _rtc.RTC_RULE
-FUNCTIONS = ["SatCacheMixin._add", "SatCacheMixin.unsat_core", "SatCacheMixin.simplify", "BackendZ3.add (tracked term table)", "BackendZ3._add (track=True)", "BackendZ3._unsat_core"]
+FUNCTIONS = ["FullFrontend._get_solver / _add / branch / unsat_core / simplify / downsize (tracked-assertion invariant P4)", "SatCacheMixin._add", "SatCacheMixin.unsat_core", "SatCacheMixin.simplify", "BackendZ3.add (tracked term table)", "BackendZ3._add (track=True)", "BackendZ3._unsat_core"]
 TRUSTED = _rtc.RTC_TRUSTED + ["Z3's unsat cores; ghost solver: assert_and_track / assertions / unsat_core as documented by Z3; a live Z3 term's address identifies it"]
 ASSUMPTIONS = ["BackendZ3._add(track=True)/_unsat_core are proved over a ghost solver in which the 32-bit hashes of different terms may coincide (z3solve.BackendZ3._add[track]...)"]
 
@@ -19,4 +19,8 @@ def tasks(tier, seed=0):
     out = [task(M, "ob_satcache", f"mixin.SatCacheMixin.{m}/spec+inv", ["C11", "C16"], method=m, tier=tier) for m in ("_add", "unsat_core", "simplify")]
     out.append(task("vf.contracts.z3solve", "ob_tracked_assertions", "z3solve.BackendZ3._add[track]+_unsat_core/every-constraint-asserted", ["C16", "C11"], tier=tier))
     out.append(task("vf.contracts.z3solve", "ob_tracked_add", "z3solve.BackendZ3.add/tracked-term-maps-to-the-added-constraint", ["C16"], tier=tier))
+    # FullFrontend hands the backend a solver object in which every assertion is tracked when tracking is on (invariant P4 of fullfront.py):
+    # the link between "added to the frontend" and "can be named in a core"
+    out += [task("vf.contracts.fullfront", "ob_fullfront", f"fullfrontend.{m}/protocol", ["C16", "C11", "C14"], method=m, tier=tier)
+            for m in ("_get_solver", "_add", "branch", "unsat_core", "simplify", "downsize")]
     return out + _rtc.rtc_tasks("C16", tier, seed)
